@@ -104,6 +104,134 @@ def tie_bin1d_vec(rng, n):
     return total, bad
 
 
+def tie_discretize(rng, n):
+    """grids of at least two edges (and the empty one); data inside, at the edges +- ulps, outside (CSEPException), empty"""
+    import numpy
+    from csep.utils import calc
+    drv, exp, total = Driver(), [], 0
+    for g in _grids(rng, max(6, n // 6)) + [[]]:
+        if len(g) == 1:
+            continue        # bin_edges[1] raises IndexError: outside the specialisation (indexing is not bounds-checked)
+        if g:
+            a0, h = g[0], g[1] - g[0]
+            if h - abs(a0) * 2.0 ** -52 == 0 or not _finite(h):
+                continue
+        pts = _points(rng, g) if g else [0.0, 1.0]
+        inside = [p for p in pts if g and g[0] <= p < g[-1]] or pts[:2]
+        for data in (inside, pts[:6], [], inside[:1]):
+            for rc in (False, True):
+                try:
+                    with numpy.errstate(all="ignore"):
+                        r = flist(float(v) for v in calc.discretize(numpy.asarray(data, dtype=numpy.float64),
+                                                                   numpy.asarray(g, dtype=numpy.float64), right_continuous=rc))
+                except ValueError:
+                    r = "ValueError"
+                except IndexError:
+                    r = "IndexError"
+                except Exception:
+                    r = "Exception"
+                drv.ask(f"src_discretize {int(rc)} {flist(g)} {flist(data)}")
+                exp.append((dict(bins=g, rc=rc, data=data), r))
+                total += max(1, len(data))
+    out = drv.run()
+    bad = [(c, r, o[:80]) for (c, r), o in zip(exp, out) if r != o]
+    return total, bad
+
+
+def tie_compute_vertex(rng, n):
+    import numpy
+    from csep.core import regions
+    drv, exp = Driver(), []
+    eps = float(numpy.finfo(float).eps)
+    for _ in range(n):
+        x, y = round(rng.uniform(-180, 180), rng.choice([0, 1, 2, 6])), round(rng.uniform(-90, 90), rng.choice([0, 1, 2, 6]))
+        dh = rng.choice([0.1, 0.05, 0.5, 1.0, 0.025, rng.uniform(1e-3, 3)])
+        tol = rng.choice([eps, eps, 0.0, 1e-9])
+        r = regions.compute_vertex((numpy.float64(x), numpy.float64(y)), dh, tol)
+        exp.append(((x, y, dh, tol), [Fraction(float(v)) for p in r for v in p]))
+        drv.ask(f"src_compute_vertex {frac(x)} {frac(y)} {frac(dh)} {frac(tol)}")
+    out = drv.run()
+    return len(exp), [(c, r, o) for (c, r), o in zip(exp, out) if r != [Fraction(t) for t in o.split(",")]]
+
+
+def _region_cases(rng, n):
+    """(xs, ys, bbox_mask, idx_map, lons, lats): regular decimal grids with random masks (a stub carrying the four arrays the
+    methods read), and real CartesianGrid2D regions built by from_origins (nan of never-written idx_map cells sent as 0)"""
+    import numpy
+    from csep.core import regions
+    out = []
+    for k in range(n):
+        nx, ny = rng.randint(1, 5), rng.randint(1, 4)
+        dh = rng.choice([0.1, 0.5, 1.0, 0.25])
+        x0, y0 = round(rng.uniform(-170, 160), 1), round(rng.uniform(-80, 70), 1)
+        if k % 3 == 0 and nx * ny > 1:
+            origins = [(x0 + i * dh, y0 + j * dh) for j in range(ny) for i in range(nx) if rng.random() < 0.8] or [(x0, y0)]
+            reg = regions.CartesianGrid2D.from_origins(numpy.array(origins), dh=dh)
+            xs, ys = [float(v) for v in reg.xs], [float(v) for v in reg.ys]
+            bbox = [[float(v) for v in row] for row in reg.bbox_mask]
+            idm = [[0.0 if v != v else float(v) for v in row] for row in reg.idx_map]
+            obj = reg
+        else:
+            xs = [float(x0 + i * dh) for i in range(nx)]
+            ys = [float(y0 + j * dh) for j in range(ny)]
+            if rng.random() < 0.1:
+                xs = xs[::-1]                          # decreasing edges: bin1d_vec raises ValueError
+            bbox = [[float(rng.random() < 0.25) for _ in range(nx)] for _ in range(ny)]
+            idm = [[float(rng.randint(0, 50)) for _ in range(nx)] for _ in range(ny)]
+            obj = _Obj(xs=numpy.array(xs), ys=numpy.array(ys), bbox_mask=numpy.array(bbox), idx_map=numpy.array(idm))
+        m = rng.choice([0, 1, 3, 6])
+        inside = rng.random() < 0.6
+        lons, lats = [], []
+        for _ in range(m):
+            e = rng.choice(xs)
+            lons.append(rng.choice([e, next_up(e), next_down(e), e + dh * rng.random(),
+                                    (min(xs) - dh * rng.random()) if not inside else e + dh / 2, max(xs) + dh * rng.uniform(0.9, 1.2)
+                                    if not inside else e]))
+            e = rng.choice(ys)
+            lats.append(rng.choice([e, next_up(e), e + dh * rng.random(), e + dh / 2,
+                                    (max(ys) + dh * rng.uniform(0.9, 1.2)) if not inside else e]))
+        out.append((obj, xs, ys, bbox, idm, [float(v) for v in lons], [float(v) for v in lats]))
+    return out
+
+
+def _l2(rows):
+    return ";".join(flist(r) for r in rows) if rows else "-"
+
+
+def _tie_region(rng, n, masked):
+    import numpy
+    from csep.core import regions
+    drv, exp = Driver(), []
+    for obj, xs, ys, bbox, idm, lons, lats in _region_cases(rng, max(20, n // 2)):
+        a, b = numpy.array(lons, dtype=numpy.float64), numpy.array(lats, dtype=numpy.float64)
+        try:
+            with numpy.errstate(all="ignore"):
+                if masked:
+                    r = ",".join(str(int(v)) for v in regions.CartesianGrid2D.get_masked(obj, a, b)) or "-"
+                else:
+                    r = ilist(regions.CartesianGrid2D.get_index_of(obj, a, b))
+        except ValueError:
+            r = "ValueError"
+        except IndexError:
+            r = "IndexError"
+        if masked:
+            drv.ask(f"src_get_masked {flist(lons)} {flist(lats)} {flist(xs)} {flist(ys)} {_l2(bbox)}")
+        else:
+            drv.ask(f"src_get_index_of {flist(lons)} {flist(lats)} {flist(xs)} {flist(ys)} {_l2(bbox)} {_l2(idm)}")
+        exp.append((dict(xs=xs, ys=ys, bbox=bbox, lons=lons, lats=lats), r))
+    out = drv.run()
+    bad = [(c, r, o[:80]) for (c, r), o in zip(exp, out) if r != o]
+    return sum(max(1, len(c["lons"])) for c, _ in exp), bad
+
+
+def tie_get_index_of(rng, n):
+    return _tie_region(rng, n, False)
+
+
+def tie_get_masked(rng, n):
+    return _tie_region(rng, n, True)
+
+
 def _num_decimals(x):
     import decimal
     return max(0, -decimal.Decimal(repr(float(x))).as_tuple().exponent)
@@ -278,6 +406,50 @@ def tie_nbd_number_test_ndarray(rng, n):
     return len(exp), bad
 
 
+class _Obj:
+    """stands for a forecast / catalog argument of the public N-tests: the attributes the wrapper reads"""
+
+    def __init__(self, **kw):
+        self.__dict__.update(kw)
+
+
+def _tie_public_ntest(rng, n, nbd):
+    import numpy
+    import scipy.stats
+    from csep.core import poisson_evaluations as pe, binomial_evaluations as be
+    drv, exp = Driver(), []
+    patch = _patched(scipy.stats.nbinom, "cdf", lambda x, t, u, loc=0: x * 0.25 + t * 0.5 + u * 0.125) if nbd else \
+        _patched(scipy.stats.poisson, "cdf", lambda x, mu: x * 0.25 + mu * 0.5)
+    with patch:
+        for _ in range(n):
+            mu, k = rng.uniform(0.01, 500), rng.randint(0, 600)
+            fc = _Obj(event_count=mu, name="f", magnitudes=numpy.array([4.95, 5.05]))
+            cat = _Obj(event_count=k, name="c")
+            if nbd:
+                var = mu * rng.uniform(1.05, 50)
+                r = be.negative_binomial_number_test(fc, cat, var)
+                drv.ask(f"src_negative_binomial_number_test {_bits(mu)} {k} {_bits(var)}")
+            else:
+                r = pe.number_test(fc, cat)
+                drv.ask(f"src_number_test {_bits(mu)} {k}")
+            exp.append(((mu, k), (r.quantile[0], r.quantile[1], r.observed_statistic, r.test_distribution[1])))
+    out = drv.run()
+    bad = []
+    for (c, r), o in zip(exp, out):
+        a, b, k, m = o.split(",")
+        if not (_close(r[0], _unbits(a)) and _close(r[1], _unbits(b)) and int(k) == r[2] and _close(r[3], _unbits(m))):
+            bad.append((c, r, o))
+    return len(exp), bad
+
+
+def tie_number_test(rng, n):
+    return _tie_public_ntest(rng, n, False)
+
+
+def tie_negative_binomial_number_test(rng, n):
+    return _tie_public_ntest(rng, n, True)
+
+
 def tie_t_test_ndarray(rng, n):
     import numpy
     import scipy.stats
@@ -299,6 +471,160 @@ def tie_t_test_ndarray(rng, n):
     return len(exp), bad
 
 
+def tie_paired_t_test(rng, n):
+    import numpy
+    import scipy.stats
+    from csep.core import poisson_evaluations as pe
+    drv, exp = Driver(), []
+    with _patched(scipy.stats.t, "ppf", lambda q, df: q * 2.0 + df * 0.125):
+        for _ in range(n):
+            m = rng.randint(2, 7)
+            ra = [rng.uniform(1e-4, 5.0) for _ in range(m)]
+            rb = [rng.uniform(1e-4, 5.0) for _ in range(m)]
+            nobs, na, nb, alpha = rng.randint(2, 60), rng.uniform(0.1, 90), rng.uniform(0.1, 90), rng.choice([0.05, 0.01, 0.1])
+            fa = _Obj(target_event_rates=lambda cat, scale=False, r=ra, t=na: (numpy.array(r), t), name="a",
+                      magnitudes=numpy.array([4.95]))
+            fb = _Obj(target_event_rates=lambda cat, scale=False, r=rb, t=nb: (numpy.array(r), t), name="b")
+            with numpy.errstate(all="ignore"):
+                r = pe.paired_t_test(fa, fb, _Obj(event_count=nobs, name="c"), alpha=alpha)
+            exp.append(((ra, rb, nobs, na, nb, alpha),
+                        [r.test_distribution[0], r.test_distribution[1], r.observed_statistic, r.quantile[0], r.quantile[1]]))
+            drv.ask(f"src_paired_t_test {_blist(ra)} {_blist(rb)} {nobs} {_bits(na)} {_bits(nb)} {_bits(alpha)}")
+    out = drv.run()
+    bad = [(c, r, o) for (c, r), o in zip(exp, out) if not all(_close(a, _unbits(b)) for a, b in zip(r, o.split(",")))]
+    return len(exp), bad
+
+
+class _swapped:
+    """replace an attribute of a module (or any object) while the real pyCSEP function runs; the previous value is restored"""
+
+    def __init__(self, obj, name, fn):
+        self.obj, self.name, self.fn = obj, name, fn
+
+    def __enter__(self):
+        self.old = getattr(self.obj, self.name)
+        setattr(self.obj, self.name, self.fn)
+
+    def __exit__(self, *a):
+        setattr(self.obj, self.name, self.old)
+
+
+class _NumpyWithLog:
+    """stands for the name `numpy` inside poisson_evaluations while w_test runs: everything is numpy's, except `log`"""
+
+    def __init__(self, log):
+        self.log = log
+
+    def __getattr__(self, name):
+        import numpy
+        return getattr(numpy, name)
+
+
+def tie_w_test_inputs(rng, n):
+    """the real w_test with numpy.log replaced by x * 0.25 + 3.0 and _w_test_ndarray replaced by a recorder of its arguments"""
+    import numpy
+    from csep.core import poisson_evaluations as pe
+    drv, exp = Driver(), []
+    seen = {}
+
+    def rec(x, m=0):
+        seen["x"], seen["m"] = [float(v) for v in x], float(m)
+        return {"z_statistic": 0.0, "probability": 1.0}
+    with _swapped(pe, "_w_test_ndarray", rec), \
+            _swapped(pe, "numpy", _NumpyWithLog(lambda a: numpy.asarray(a) * 0.25 + 3.0)):
+        for _ in range(n):
+            k = rng.randint(1, 7)
+            ra = [rng.uniform(1e-4, 5.0) for _ in range(k)]
+            rb = [rng.choice([rng.uniform(1e-4, 5.0), ra[i]]) for i in range(k)]
+            n1, n2, nobs = rng.uniform(0.1, 90), rng.uniform(0.1, 90), rng.randint(1, 60)
+            fa = _Obj(target_event_rates=lambda cat, scale=False, r=ra: (numpy.array(r), 0.0), name="a", event_count=n1,
+                      magnitudes=numpy.array([4.95]))
+            fb = _Obj(target_event_rates=lambda cat, scale=False, r=rb: (numpy.array(r), 0.0), name="b", event_count=n2)
+            pe.w_test(fa, fb, _Obj(event_count=nobs, name="c"))
+            exp.append(((ra, rb, nobs, n1, n2), ([Fraction(v) for v in seen["x"]], Fraction(seen["m"]))))
+            drv.ask(f"src_w_test_inputs {flist(ra)} {flist(rb)} {nobs} {frac(n1)} {frac(n2)}")
+    out = drv.run()
+    bad = []
+    for (c, (x, m)), o in zip(exp, out):
+        a, b = o.split(";")
+        gx = [] if a == "-" else [Fraction(t) for t in a.split(",")]
+        if gx != x or Fraction(b) != m:
+            bad.append((c, (x[:3], m), o[:80]))
+    return len(exp), bad
+
+
+class _Counts:
+    """stands for the catalog argument of matrix_binary_t_test: only `spatial_magnitude_counts()` is read"""
+
+    def __init__(self, a):
+        self.a = a
+
+    def spatial_magnitude_counts(self):
+        return self.a
+
+
+def tie_matrix_binary_t_test(rng, n):
+    import numpy
+    import scipy.stats
+    from csep.core import binomial_evaluations as be
+    drv, exp = Driver(), []
+    keys = ["t_statistic", "t_critical", "information_gain", "ig_lower", "ig_upper"]
+    with _patched(scipy.stats.t, "ppf", lambda q, df: q * 2.0 + df * 0.125):
+        for _ in range(n):
+            shape = (rng.randint(1, 4), rng.randint(1, 3))
+            cnt = [rng.choice([0, 0, 1, 2]) for _ in range(shape[0] * shape[1])]
+            if sum(1 for c in cnt if c) < 2:
+                cnt[0], cnt[-1] = 1, 3
+            m = sum(1 for c in cnt if c)
+            if m > 7:       # numpy.sum adds fewer than 8 elements left to right, like the model
+                continue
+            ra = [rng.uniform(1e-4, 5.0) for _ in range(m)]
+            rb = [rng.uniform(1e-4, 5.0) for _ in range(m)]
+            nobs, na, nb, alpha = float(sum(cnt)), rng.uniform(0.1, 90), rng.uniform(0.1, 90), rng.choice([0.05, 0.01, 0.1])
+            with numpy.errstate(all="ignore"):
+                r = be.matrix_binary_t_test(numpy.array(ra), numpy.array(rb), nobs, na, nb,
+                                            _Counts(numpy.array(cnt).reshape(shape)), alpha=alpha)
+            exp.append(((ra, rb, nobs, na, nb, alpha, cnt), [r[k] for k in keys]))
+            drv.ask(f"src_matrix_binary_t_test {_blist(ra)} {_blist(rb)} {_bits(nobs)} {_bits(na)} {_bits(nb)} {_bits(alpha)} "
+                    f"{ilist(cnt)}")
+    out = drv.run()
+    bad = [(c, r, o) for (c, r), o in zip(exp, out) if not all(_close(a, _unbits(b)) for a, b in zip(r, o.split(",")))]
+    return len(exp), bad
+
+
+def tie_binary_paired_t_test(rng, n):
+    import numpy
+    import scipy.stats
+    from csep.core import binomial_evaluations as be
+    drv, exp = Driver(), []
+    with _patched(scipy.stats.t, "ppf", lambda q, df: q * 2.0 + df * 0.125):
+        for _ in range(n):
+            shape = (rng.randint(1, 4), rng.randint(1, 3))
+            size = shape[0] * shape[1]
+            cnt = [rng.choice([0, 0, 1, 2]) for _ in range(size)]
+            if sum(1 for c in cnt if c) < 2:
+                cnt[0], cnt[-1] = 1, 3
+            if sum(1 for c in cnt if c) > 7:
+                continue
+            d1 = [rng.uniform(1e-4, 5.0) for _ in range(size)]
+            d2 = [rng.uniform(1e-4, 5.0) for _ in range(size)]
+            na, nb, alpha = rng.uniform(0.1, 90), rng.uniform(0.1, 90), rng.choice([0.05, 0.01, 0.1])
+            fa = _Obj(target_event_rates=lambda cat, scale=False, t=na: (numpy.array([1.0]), t), name="a",
+                      magnitudes=numpy.array([4.95]), data=numpy.array(d1).reshape(shape))
+            fb = _Obj(target_event_rates=lambda cat, scale=False, t=nb: (numpy.array([1.0]), t), name="b",
+                      data=numpy.array(d2).reshape(shape))
+            cat = _Obj(event_count=sum(cnt), name="c", spatial_magnitude_counts=lambda a=numpy.array(cnt).reshape(shape): a)
+            with numpy.errstate(all="ignore"):
+                r = be.binary_paired_t_test(fa, fb, cat, alpha=alpha)
+            exp.append(((d1, d2, cnt, na, nb, alpha),
+                        [r.test_distribution[0], r.test_distribution[1], r.observed_statistic, r.quantile[0], r.quantile[1]]))
+            drv.ask(f"src_binary_paired_t_test {_blist(d1)} {_blist(d2)} {sum(cnt)} {_bits(na)} {_bits(nb)} {_bits(alpha)} "
+                    f"{ilist(cnt)}")
+    out = drv.run()
+    bad = [(c, r, o) for (c, r), o in zip(exp, out) if not all(_close(a, _unbits(b)) for a, b in zip(r, o.split(",")))]
+    return len(exp), bad
+
+
 def tie_brier_score_ndarray(rng, n):
     import numpy
     from csep.core import brier_evaluations as br
@@ -313,6 +639,138 @@ def tie_brier_score_ndarray(rng, n):
         drv.ask(f"src_brier_score_ndarray {_blist(fc)} {ilist(ob)} {ilist(shape)}")
     out = drv.run()
     bad = [(c, r, _unbits(o)) for (c, r), o in zip(exp, out) if not _close(r, _unbits(o))]
+    return len(exp), bad
+
+
+def tie_binary_joint_log_likelihood_ndarray(rng, n):
+    """rates include 0, negative (masked slots), below 2^-53 (log-domain mask) and ordinary ones; active and empty bins"""
+    import numpy
+    from csep.core import binomial_evaluations as be
+    drv, exp = Driver(), []
+    for _ in range(n):
+        m = rng.randint(1, 7)       # builtin sum adds left to right, like the model
+        fc = [rng.choice([0.0, -rng.uniform(0, 2), rng.uniform(0, 1e-17), rng.uniform(1e-9, 1e-3), rng.uniform(0.01, 5),
+                          rng.uniform(5, 60)]) for _ in range(m)]
+        ob = [rng.choice([0, 0, 1, 3]) for _ in range(m)]
+        with numpy.errstate(all="ignore"):
+            r = float(be.binary_joint_log_likelihood_ndarray(numpy.array(fc), numpy.array(ob, dtype=numpy.int64)))
+        exp.append(((fc, ob), r))
+        drv.ask(f"src_binary_joint_log_likelihood_ndarray {_blist(fc)} {ilist(ob)}")
+    out = drv.run()
+
+    def ok(c, r, v):
+        # log(1 - exp(-x)) amplifies a last-bit difference between libm's and numpy's exp by ~ 1/x in every active cell
+        extra = sum(1e-15 / x for x, w in zip(*c) if w and x > 2.0 ** -52)
+        return _close(r, v) or abs(r - v) <= extra
+    bad = [(c, r, _unbits(o)) for (c, r), o in zip(exp, out) if not ok(c, r, _unbits(o))]
+    return len(exp), bad
+
+
+def tie_cumulative_square_diff(rng, n):
+    import numpy
+    from csep.utils import stats
+    drv, exp = Driver(), []
+    for _ in range(n):
+        m = rng.randint(0, 7)       # numpy.sum adds fewer than 8 elements left to right, like the model
+        a = [rng.uniform(-2, 40) for _ in range(m)]
+        b = [rng.uniform(-2, 40) for _ in range(m)]
+        exp.append(((a, b), float(stats.cumulative_square_diff(numpy.array(a), numpy.array(b)))))
+        drv.ask(f"src_cumulative_square_diff {_blist(a)} {_blist(b)}")
+    out = drv.run()
+    return len(exp), [(c, r, _unbits(o)) for (c, r), o in zip(exp, out) if not _close(r, _unbits(o))]
+
+
+def _tie_spatial_map(rng, n, name):
+    """per-cell maps: positive rates (a cell of rate 0 gives nan / -inf in numpy: `0 * log 0`; not in the generator), counts
+    with empty and occupied cells"""
+    import numpy
+    from csep.core import poisson_evaluations as pe
+    f = getattr(pe, name)
+    drv, exp = Driver(), []
+    for _ in range(n):
+        m = rng.randint(1, 8)
+        sc = [rng.choice([rng.uniform(1e-6, 1e-2), rng.uniform(0.01, 30)]) for _ in range(m)]
+        cnt = [rng.choice([0, 0, 1, 2, 5]) for _ in range(m)]
+        if sum(cnt) == 0:
+            cnt[0] = 1
+        nfore = rng.uniform(0.5, 60)
+        fc = _Obj(event_count=nfore, spatial_counts=lambda a=numpy.array(sc): a)
+        cat = _Obj(event_count=sum(cnt), spatial_counts=lambda a=numpy.array(cnt, dtype=numpy.int64): a)
+        with numpy.errstate(all="ignore"):
+            r = [float(v) for v in f(fc, cat)]
+        exp.append(((sc, cnt, nfore), r))
+        drv.ask(f"src_{name} {sum(cnt)} {_bits(nfore)} {_blist(sc)} {ilist(cnt)}")
+    out = drv.run()
+
+    def cell_ok(a, b, x, w):
+        # log(1 - exp(-x)) amplifies a last-bit difference between libm's and numpy's exp by exp(-x)/(1 - exp(-x)) ~ 1/x
+        extra = 1e-15 / x if (w and name.startswith("binary") and x > 0) else 0.0
+        return _close(a, b) or abs(a - b) <= extra
+    bad = []
+    for ((sc, cnt, nfore), r), o in zip(exp, out):
+        got = o.split(",")
+        scale = sum(cnt) / nfore
+        if len(r) != len(got) or not all(cell_ok(a, _unbits(b), x * scale, w) for a, b, x, w in zip(r, got, sc, cnt)):
+            bad.append(((sc, cnt, nfore), r, o[:60]))
+    return sum(len(r) for _, r in exp), bad
+
+
+def tie_binary_spatial_likelihood(rng, n):
+    return _tie_spatial_map(rng, n, "binary_spatial_likelihood")
+
+
+def tie_poisson_spatial_likelihood(rng, n):
+    return _tie_spatial_map(rng, n, "poisson_spatial_likelihood")
+
+
+def tie_compute_likelihood(rng, n):
+    """counts with and without events, rates with zeros under events (-inf), n_obs / expected count zero (nan)"""
+    import numpy
+    from csep.utils import calc
+    drv, exp = Driver(), []
+    for _ in range(n):
+        m = rng.randint(1, 7)
+        g = [rng.choice([0, 0, 0, 1, 2, 5]) for _ in range(m)] if rng.random() < 0.9 else [0] * m
+        r = [rng.choice([0.0, rng.uniform(1e-6, 1e-2), rng.uniform(0.01, 30)]) if rng.random() < 0.3 else rng.uniform(1e-4, 9)
+             for _ in range(m)]
+        ecc = rng.choice([0.0, rng.uniform(0.01, 50)])
+        nobs = rng.choice([0, sum(g), sum(g) + 1])
+        with numpy.errstate(all="ignore"):
+            a, b = calc._compute_likelihood(numpy.array(g, dtype=numpy.int64), numpy.array(r), ecc, nobs)
+        exp.append(((g, r, ecc, nobs), (float(a), float(b))))
+        drv.ask(f"src_compute_likelihood {ilist(g)} {_blist(r)} {_bits(ecc)} {nobs}")
+    out = drv.run()
+
+    def same(x, o):
+        if o == "nan":
+            return x != x
+        if o == "ninf":
+            return x == -math.inf
+        return _close(x, _unbits(o))
+    bad = [(c, r, o) for (c, r), o in zip(exp, out) if not all(same(x, t) for x, t in zip(r, o.split(",")))]
+    return len(exp), bad
+
+
+def tie_geographical_area_from_bounds(rng, n):
+    """cell bounds in degrees: ordinary cells, degenerate ones (equal longitudes / latitudes), polar and wide cells"""
+    import numpy
+    from csep.core import regions
+    drv, exp = Driver(), []
+    for _ in range(n):
+        lon1, lat1 = rng.uniform(-180, 179), rng.uniform(-89, 88)
+        lon2 = lon1 if rng.random() < 0.1 else lon1 + rng.choice([0.1, 0.05, 1.0, rng.uniform(1e-3, 40)])
+        lat2 = lat1 if rng.random() < 0.1 else min(90.0, lat1 + rng.choice([0.1, 0.05, 1.0, rng.uniform(1e-3, 40)]))
+        with numpy.errstate(all="ignore"):
+            r = float(regions.geographical_area_from_bounds(lon1, lat1, lon2, lat2))
+        exp.append(((lon1, lat1, lon2, lat2), r))
+        drv.ask(f"src_geographical_area_from_bounds {_bits(lon1)} {_bits(lat1)} {_bits(lon2)} {_bits(lat2)}")
+    out = drv.run()
+    # 1e-12 relative to the two cap areas that are subtracted (2 pi R^2 (1 - cos) dlon/360): the cancellation amplifies a
+    # last-bit difference between libm's and numpy's cosine relative to the (possibly tiny) result itself
+    def ok(c, r, v):
+        scale = 2 * math.pi * 6371.0 ** 2 * abs(c[2] - c[0]) / 360.0
+        return _close(r, v) or abs(r - v) <= 1e-12 * scale
+    bad = [(c, r, _unbits(o)) for (c, r), o in zip(exp, out) if not ok(c, r, _unbits(o))]
     return len(exp), bad
 
 
@@ -361,7 +819,169 @@ def tie_poisson_likelihood_stat(rng, n):
     return len(exp), bad
 
 
+# ----------------------------------------------------------------------------- C09: ecdf family (float64, bit-exact)
+def _samples(rng, n):
+    """float64 samples: empty, single, ties, integer-valued (counts), decimals, wide magnitudes; with queries at the sample
+    values, one ulp around them, outside both ends and in between"""
+    out = []
+    for _ in range(n):
+        k = rng.random()
+        m = rng.choice([0, 1, 1, 2, 3, 5, 8, 13, 30])
+        if k < 0.35:
+            xs = [float(rng.randint(0, 12)) for _ in range(m)]
+        elif k < 0.6:
+            xs = [round(rng.uniform(-5, 5), rng.choice([0, 1, 2])) for _ in range(m)]
+        elif k < 0.85:
+            xs = [rng.uniform(-100, 100) for _ in range(m)]
+        else:
+            xs = [rng.uniform(-9, 9) * 10.0 ** rng.randint(-12, 12) for _ in range(m)]
+        vs = []
+        for x in (xs[:4] + xs[-2:]):
+            vs += [x, next_up(x), next_down(x)]
+        lo, hi = (min(xs), max(xs)) if xs else (0.0, 1.0)
+        vs += [lo - 1.0, hi + 1.0, rng.uniform(lo - 1, hi + 1), rng.uniform(lo - 1, hi + 1), 0.0]
+        out.append(([float(x) for x in xs], [float(v) for v in vs if _finite(v)]))
+    return out
+
+
+def _optf(v):
+    return "none" if v is None else str(Fraction(float(v)))
+
+
+def _optr(s):
+    return "none" if s == "none" else str(Fraction(s))
+
+
+def tie_ecdf(rng, n):
+    import numpy
+    from csep.utils import stats
+    drv, exp = Driver(), []
+    for xs, _ in _samples(rng, max(8, n // 8)):
+        if not xs:
+            continue        # len(x) == 0: numpy divides by float(0) (empty result, RuntimeWarning); not in the model
+        a, b = stats.ecdf(numpy.asarray(xs, dtype=numpy.float64))
+        exp.append((xs, [Fraction(float(v)) for v in a], [Fraction(float(v)) for v in b]))
+        drv.ask("src_ecdf " + flist(xs))
+    out = drv.run()
+    bad = []
+    for (xs, a, b), o in zip(exp, out):
+        ga, gb = [[] if part == "-" else [Fraction(t) for t in part.split(",")] for part in o.split(";")]
+        if (ga, gb) != (a, b):
+            bad.append((xs, (a[:3], b[:3]), o[:80]))
+    return sum(len(e[0]) for e in exp), bad
+
+
+def _tie_quantile(rng, n, name, call):
+    import numpy
+    drv, exp = Driver(), []
+    for xs, vs in _samples(rng, max(8, n // 8)):
+        arr = numpy.asarray(xs, dtype=numpy.float64)
+        exp.append((xs, vs, [call(arr, numpy.float64(v)) for v in vs]))
+        drv.ask(f"src_{name} {flist(xs)} {flist(vs)}")
+    out = drv.run()
+    bad = []
+    for (xs, vs, r), o in zip(exp, out):
+        for v, a, b in zip(vs, r, o.split(",")):
+            if a != ":".join(_optr(t) for t in b.split(":")):
+                bad.append((dict(x=xs, val=v), a, b))
+    return sum(len(e[1]) for e in exp), bad
+
+
+def tie_greater_equal_ecdf(rng, n):
+    from csep.utils import stats
+    return _tie_quantile(rng, n, "greater_equal_ecdf", lambda x, v: _optf(stats.greater_equal_ecdf(x, v)))
+
+
+def tie_less_equal_ecdf(rng, n):
+    from csep.utils import stats
+    return _tie_quantile(rng, n, "less_equal_ecdf", lambda x, v: _optf(stats.less_equal_ecdf(x, v)))
+
+
+def tie_get_quantiles(rng, n):
+    from csep.utils import stats
+
+    def call(x, v):
+        a, b = stats.get_quantiles(x, v)
+        return _optf(a) + ":" + _optf(b)
+    return _tie_quantile(rng, n, "get_quantiles", call)
+
+
+def _tie_extreme(rng, n, name):
+    import numpy
+    from csep.utils import stats
+    f = getattr(stats, name)
+    drv, exp = Driver(), []
+    for xs, _ in _samples(rng, max(8, n // 4)):
+        exp.append((xs, _optf(f(numpy.asarray(xs, dtype=numpy.float64)))))
+        drv.ask(f"src_{name} {flist(xs)}")
+    out = drv.run()
+    return len(exp), [(xs, a, b) for (xs, a), b in zip(exp, out) if a != _optr(b)]
+
+
+def tie_min_or_none(rng, n):
+    return _tie_extreme(rng, n, "min_or_none")
+
+
+def tie_max_or_none(rng, n):
+    return _tie_extreme(rng, n, "max_or_none")
+
+
+def tie_sup_dist(rng, n):
+    """two arrays of one size (cdf values and arbitrary floats); non-empty (numpy.max of an empty array raises)"""
+    import numpy
+    from csep.utils import stats
+    drv, exp = Driver(), []
+    for _ in range(max(8, n // 2)):
+        m = rng.randint(1, 9)
+        a = [rng.choice([rng.random(), k / m, rng.uniform(-3, 3)]) for k in range(m)]
+        b = [rng.choice([rng.random(), (k + 1) / m, x]) for k, x in enumerate(a)]
+        exp.append(((a, b), Fraction(float(stats.sup_dist(numpy.array(a, dtype=numpy.float64), numpy.array(b, dtype=numpy.float64))))))
+        drv.ask(f"src_sup_dist {flist(a)} {flist(b)}")
+    out = drv.run()
+    return len(exp), [(c, r, o) for (c, r), o in zip(exp, out) if r != Fraction(o)]
+
+
+def tie_sup_dist_na(rng, n):
+    import numpy
+    from csep.utils import stats
+    drv, exp = Driver(), []
+    ss = [xs for xs, _ in _samples(rng, max(16, n // 2)) if xs]
+    for a, b in zip(ss[::2], ss[1::2]):
+        if rng.random() < 0.3:
+            b = b + a[:2]                   # shared values: ties between the samples
+        with numpy.errstate(all="ignore"):
+            r = Fraction(float(stats.sup_dist_na(a, b)))
+        exp.append(((a, b), r))
+        drv.ask(f"src_sup_dist_na {flist(a)} {flist(b)}")
+    out = drv.run()
+    return sum(len(a) + len(b) for (a, b), _ in exp), [(c, r, o) for (c, r), o in zip(exp, out) if r != Fraction(o)]
+
+
 TIES = {
+    "w_test_inputs": tie_w_test_inputs,
+    "binary_spatial_likelihood": tie_binary_spatial_likelihood,
+    "poisson_spatial_likelihood": tie_poisson_spatial_likelihood,
+    "cumulative_square_diff": tie_cumulative_square_diff,
+    "compute_vertex": tie_compute_vertex,
+    "min_or_none": tie_min_or_none,
+    "max_or_none": tie_max_or_none,
+    "sup_dist": tie_sup_dist,
+    "sup_dist_na": tie_sup_dist_na,
+    "binary_paired_t_test": tie_binary_paired_t_test,
+    "paired_t_test": tie_paired_t_test,
+    "get_index_of": tie_get_index_of,
+    "get_masked": tie_get_masked,
+    "discretize": tie_discretize,
+    "number_test": tie_number_test,
+    "negative_binomial_number_test": tie_negative_binomial_number_test,
+    "geographical_area_from_bounds": tie_geographical_area_from_bounds,
+    "compute_likelihood": tie_compute_likelihood,
+    "matrix_binary_t_test": tie_matrix_binary_t_test,
+    "binary_joint_log_likelihood_ndarray": tie_binary_joint_log_likelihood_ndarray,
+    "ecdf": tie_ecdf,
+    "greater_equal_ecdf": tie_greater_equal_ecdf,
+    "less_equal_ecdf": tie_less_equal_ecdf,
+    "get_quantiles": tie_get_quantiles,
     "poisson_likelihood_stat": tie_poisson_likelihood_stat,
     "number_test_ndarray": tie_number_test_ndarray,
     "nbd_number_test_ndarray": tie_nbd_number_test_ndarray,
